@@ -41,6 +41,9 @@ CLAIMS = {
     "C16": {"design_ref": "DESIGN.md 7/C16",
             "text": "Coq theorems: the linear mask allows size k iff an unknown explorable coalition of size k exists; candidates = exactly those coalitions, non-empty when allowed; a linear step IS the underlying step of a candidate; the observation is the per-size sum of the inner observation, of length n. Lock-step correspondence with ICG_Gym_Linear (the sampled coalition read from info and passed to the model).",
             "technique": "Coq proof over the aggregation (bincount) model + lock-step correspondence"},
+    "C15": {"design_ref": "DESIGN.md 7/C15 + DESIGN_NOTES/C15.md",
+            "text": "Coq theorems over exact rationals (which cover every float input): closed formula of the sequential singleton subtraction (all n), range [0,1] with singletons 0 and grand 1 (or identically 0 iff additive), superadditivity preserved, denormalise o normalise = id, graph and tabulated forms commute; refutation witnesses showing the hypotheses cannot be dropped. Correspondence: exact stream bit-for-bit, float stream over every generator family and nearly additive games, graph stream, gym observation inside its Box; oracle = the property on the implementation's output.",
+            "technique": "Coq proof (loop invariant over the player loop, ordered-field reasoning) + correspondence + range oracle"},
 }
 
 PENDING_REASON = "check under construction in this session (DESIGN.md section 9 staging); not claimed until its theorems and correspondence are committed"
